@@ -197,11 +197,11 @@ func (fs LocalFileSystem) Create(ctx context.Context, name string, body io.ReadC
 
 	if _, err := io.Copy(wc, body); err != nil {
 		os.Remove(dst)
-		return nil, false, err
+		return nil, false, errFromOS(err)
 	}
 	if err := wc.Close(); err != nil {
 		os.Remove(dst)
-		return nil, false, err
+		return nil, false, errFromOS(err)
 	}
 
 	if !created {
